@@ -154,6 +154,7 @@ pub fn payload_decodable(m: &HandlerSpec, payload: &[u8]) -> bool {
         ["u64", "String", "Script"] => from_json::<(u64, String, rt::script::Script)>(payload).is_ok(),
         ["u128", "i128", "Script"] => from_json::<(u128, i128, rt::script::Script)>(payload).is_ok(),
         ["u128"] => from_json::<u128>(payload).is_ok(),
+        ["Nil"] => from_json::<rt::types::Nil>(payload).is_ok(),
         _ => false,
     }
 }
@@ -448,6 +449,13 @@ pub fn check(rec: &RunRecord, reg: &Reg, which: &ReplyMonitors, cells: &mut Cell
                 // a payload made by the generated builder must reach the method's payload parameters
                 if builds.iter().any(|(cid, _, output)| *cid == d.cid() && output["payload"] == reply["payload"] && output["id"] == reply["id"]) {
                     out.push(Finding::new("C08", "c08.roundtrip_lost", op.idx, format!("{}: the payload built by `{name}`'s builder was not delivered to {}: the reply returned {}", d.cid(), m.id(), res)));
+                }
+            }
+            if which.c08 && mine.is_empty() && !enters.is_empty() {
+                // builder and dispatcher have to agree on what an id means: a sub-message stamped by
+                // `name`'s builder must not end up in a method that does not serve (`name`, outcome)
+                if builds.iter().any(|(cid, _, output)| *cid == d.cid() && output["payload"] == reply["payload"] && output["id"] == reply["id"]) {
+                    out.push(Finding::new("C08", "c08.roundtrip_misrouted", op.idx, format!("{}: the sub-message stamped by `{name}`'s builder (id {}) was answered by {:?} instead of {}", d.cid(), reply["id"], enters.iter().map(|e| e.0).collect::<Vec<_>>(), m.id())));
                 }
             }
             if which.c08 && !mine.is_empty() && r.payload_raw {
